@@ -965,6 +965,10 @@ func init() {
 	stubs["bytes.Equal"] = func(x *Exec, fr *Frame, st *State, callee *ssa.Function, args []Value, pos token.Pos) Value {
 		return Value{K: KScalar, X: x.bytesEqual(st, args[0], args[1])}
 	}
+	stubs["bytes.HasPrefix"] = func(x *Exec, fr *Frame, st *State, callee *ssa.Function, args []Value, pos token.Pos) Value {
+		return Value{K: KScalar, X: x.bytesHasPrefix(st, args[0], args[1])}
+	}
+	stubEffectTable["bytes.HasPrefix"] = newModSet
 	noop := func(x *Exec, fr *Frame, st *State, callee *ssa.Function, args []Value, pos token.Pos) Value {
 		return Value{K: KTuple}
 	}
@@ -1039,6 +1043,23 @@ func (x *Exec) stubPutUint(fr *Frame, st *State, b Value, v Value, w int, little
 		c = nestedStore(c, idx, by)
 	}
 	st.H[name] = c
+}
+
+// bytes.HasPrefix(s, p): len(s) >= len(p) and the first len(p) bytes agree (Go documentation).
+func (x *Exec) bytesHasPrefix(st *State, a, b Value) *Term {
+	m := x.m()
+	ixT := IntTy{64, true}
+	if n, ok := litValue(b.Len); ok && n.IsInt64() && n.Int64() <= 64 {
+		c := m.cmp(token.GEQ, a.Len, b.Len, ixT)
+		for k := int64(0); k < n.Int64(); k++ {
+			c = And(c, Eq(x.byteAt(st, a, k), x.byteAt(st, b, k)))
+		}
+		return c
+	}
+	k := Sym("k!p", m.ixSort())
+	return And(m.cmp(token.GEQ, a.Len, b.Len, ixT), Forall([][2]string{{"k!p", m.ixSort()}},
+		Implies(And(m.cmp(token.LEQ, m.ix(0), k, ixT), m.cmp(token.LSS, k, b.Len, ixT)),
+			Eq(x.srcElemLeaves(st, a, k)[0], x.srcElemLeaves(st, b, k)[0]))))
 }
 
 func (x *Exec) bytesEqual(st *State, a, b Value) *Term {
